@@ -217,6 +217,34 @@ impl Snap {
     }
 }
 
+/// Does the quality 0/1 branch of encode_data advance last_flush_pos_ (fixed tree)?  Canary:
+/// q1 catable, PROCESS "abc", FLUSH — safe on both trees.
+fn q01_flush_pos_fixed() -> bool {
+    static FIXED: std::sync::OnceLock<bool> = std::sync::OnceLock::new();
+    *FIXED.get_or_init(|| {
+        let mut e = Enc::new(StandardAlloc::default());
+        e.set_parameter(BrotliEncoderParameter::BROTLI_PARAM_QUALITY, 1);
+        e.set_parameter(BrotliEncoderParameter::BROTLI_PARAM_CATABLE, 1);
+        let data = b"abc";
+        let (mut ai, mut io, mut ao, mut oo) = (3usize, 0usize, 4096usize, 0usize);
+        let mut buf = vec![0u8; 4096];
+        let mut total: Option<usize> = None;
+        let mut cb = |_: &mut brotli::interface::PredictionModeContextMap<brotli::InputReferenceMut>, _: &mut [brotli::interface::StaticCommand], _: brotli::interface::InputPair, _: &mut StandardAlloc| ();
+        e.compress_stream(op_of(OP_FLUSH), &mut ai, data, &mut io, &mut ao, &mut buf, &mut oo, &mut total, &mut cb);
+        let _ = evhook::take();
+        e.last_flush_pos_ == e.input_pos_
+    })
+}
+/// the call would spin for ever in process_metadata on an unfixed tree
+fn spin_guard(s: &Snap, op: u8, n: usize) -> bool {
+    if q01_flush_pos_fixed() { return false; }
+    if !(s.init && s.q <= 1 && s.cat && op == OP_METADATA) { return false; }
+    if !contract_accepts(alpha(s), op, n) { return false; }
+    let pre_left: u64 = match s.fm { 3 => 0, 2 => 1, _ => 2 };
+    let lf2 = s.lf + pre_left.min(s.ip - s.lp);
+    lf2 != s.ip
+}
+
 #[derive(Clone, Debug)]
 pub enum Call {
     Set(u32, u32),
@@ -278,6 +306,13 @@ impl Session {
     pub fn stream(&mut self, op: u8, data: &[u8], cap: usize) -> (bool, usize, usize) {
         if self.dead.is_some() { return (false, 0, 0); }
         let before = snap(&self.enc);
+        if spin_guard(&before, op, data.len()) {
+            // this call would never return on a tree without the last_flush_pos_ fix
+            // (/verif/proposed/metadata-q01-catable-livelock.md): do not make it
+            self.dead = Some("livelock:metadata-q01-catable process_metadata spins: quality 0/1 + catable never advances last_flush_pos_".into());
+            self.push(Rec { call: Call::Stream { op, data: data.to_vec(), cap }, before: before.clone(), ret: false, consumed: 0, produced: vec![], after: before, events: vec![], panicked: true });
+            return (false, 0, 0);
+        }
         let mut avail_in = data.len();
         let mut in_off = 0usize;
         let mut buf = vec![0xa5u8; cap];
@@ -523,8 +558,7 @@ pub fn drive(cfg: &Cfg, reqs: &[Req], sched: &OutSched, record: bool) -> RunOut 
             let cap = sched.caps[k % sched.caps.len()];
             let (ret, consumed, produced) = out.sess.stream(rq.op, &rq.data[pos..], cap);
             if let Some(p) = &out.sess.dead {
-                let loc = p.split(' ').next().unwrap_or("?").to_string();
-                out.fail = Some((format!("stream:panic:{}", loc), format!("panic in compress_stream(op={}, in={}, cap={}): {}", rq.op, rq.data.len() - pos, cap, p)));
+                out.fail = Some((dead_signature(p), format!("compress_stream(op={}, in={}, cap={}): {}", rq.op, rq.data.len() - pos, cap, p)));
                 return out;
             }
             if !ret { out.fail = Some((format!("stream:refused:op{}", rq.op), format!("contract-abiding call refused: op={} in={} cap={} state {:?}", rq.op, rq.data.len() - pos, cap, out.sess.enc.stream_state_ as i32))); return out; }
@@ -536,7 +570,7 @@ pub fn drive(cfg: &Cfg, reqs: &[Req], sched: &OutSched, record: bool) -> RunOut 
                 took = out.sess.take(sched.take_sizes[k % sched.take_sizes.len()]);
                 out.ncalls += 1;
                 if let Some(p) = &out.sess.dead {
-                    out.fail = Some((format!("stream:panic:{}", p.split(' ').next().unwrap_or("?")), format!("panic in take_output: {}", p)));
+                    out.fail = Some((dead_signature(p), format!("panic in take_output: {}", p)));
                     return out;
                 }
             }
@@ -555,6 +589,12 @@ pub fn drive(cfg: &Cfg, reqs: &[Req], sched: &OutSched, record: bool) -> RunOut 
     out
 }
 
+fn dead_signature(msg: &str) -> String {
+    let loc = msg.split(' ').next().unwrap_or("?");
+    if loc.starts_with("livelock:") { format!("stream:{}", loc) }
+    else if msg.contains("verif_stream_hook:") { "stream:livelock:in-call".into() }
+    else { format!("stream:panic:{}", loc) }
+}
 // independent LSB-first bit reader for the framing checks
 fn get_bits(b: &[u8], pos: usize, n: usize) -> Option<u64> {
     let mut v = 0u64;
@@ -776,7 +816,7 @@ pub fn param_table_accepts(id: u32, val: u32) -> bool {
 pub fn check_contract(recs: &[Rec]) -> Option<(String, String)> {
     let mut finished_seen = false;
     for (i, r) in recs.iter().enumerate() {
-        if r.panicked { return Some(("stream:c20:panic".into(), format!("call {} {} panicked", i, r.call.token().chars().take(60).collect::<String>()))); }
+        if r.panicked { return Some((if spin_guard(&r.before, if let Call::Stream { op, .. } = &r.call { *op } else { 0 }, if let Call::Stream { data, .. } = &r.call { data.len() } else { 0 }) { "stream:livelock:metadata-q01-catable".into() } else { "stream:c20:panic".into() }, format!("call {} {} panicked / would not return", i, r.call.token().chars().take(60).collect::<String>()))); }
         let a = alpha(&r.before);
         let b = alpha(&r.after);
         match &r.call {
@@ -1198,7 +1238,7 @@ fn run_corpus(rep: &mut Report, lines: &mut Vec<(String, String)>) {
             rep.count("corpus.histories");
             let name = f.file_name().map(|x| x.to_string_lossy().to_string()).unwrap_or_default();
             if let Some(p) = &s.dead {
-                rep.violation(&format!("stream:panic:{}", p.split(' ').next().unwrap_or("?")), &format!("corpus {}: {}", name, p), format!("{{\"corpus\": {}, \"history\": {}}}", jstr(&name), jstr(l)));
+                rep.violation(&dead_signature(p), &format!("corpus {}: {}", name, p), format!("{{\"corpus\": {}, \"history\": {}}}", jstr(&name), jstr(l)));
             } else if let Some(v) = check_contract(&s.recs) {
                 rep.violation(&v.0, &format!("corpus {}: {}", name, v.1), format!("{{\"corpus\": {}, \"history\": {}}}", jstr(&name), jstr(l)));
             }
